@@ -15,7 +15,7 @@ var aqDims = []dim{
 	{"envelope", []string{"ok", "no-query", "notxml", "empty"}},
 	{"issuer", []string{"registered", "absent", "unregistered"}},
 	{"subject", []string{"alice", "no-nameid", "unknown-user", "bob"}},
-	{"requested", []string{"none", "email", "email+username", "wrong-name", "wrong-format", "duplicate", "custom", "mixed", "nameless"}},
+	{"requested", []string{"none", "email", "email+username", "wrong-name", "wrong-format", "duplicate", "custom", "mixed", "nameless", "split-pair"}},
 	{"destination", []string{"absent", "attribute-service", "sso-location", "foreign", "case-variant"}},
 	{"signature", []string{"none", "valid", "tampered", "foreign-key", "empty-value", "valid-nokeyinfo", "tampered-nokeyinfo", "wrapped-header", "wrapped-body"}},
 	{"user", []string{"full", "custom", "minimal", "hostile"}},
@@ -56,6 +56,11 @@ func requestedFor(label string) []reqAttr {
 		return []reqAttr{{"groups", basicFmt}, {"urn:oid:1.2.3", "urn:oasis:names:tc:SAML:2.0:attrname-format:uri"}}
 	case "mixed":
 		return []reqAttr{{"Nope", basicFmt}, {"SurName", basicFmt}, {"groups", "urn:other"}, {"FullName", basicFmt}}
+	case "split-pair":
+		// pairs whose concatenations coincide with a pair the user holds, although neither the name nor the format does:
+		// ("Email:urn", "oasis:…:basic") vs ("Email", "urn:oasis:…:basic"), with ':', '|', ' ' or nothing as the seam
+		rest := strings.TrimPrefix(basicFmt, "urn:")
+		return []reqAttr{{"Email:urn", rest}, {"Email|urn", rest}, {"Emailurn:", rest}, {"Email urn", rest}, {"E", "mail" + basicFmt}, {"Email" + basicFmt, ""}}
 	case "nameless":
 		// attributes were requested, but none carries a name: nothing the user holds matches
 		return []reqAttr{{"", basicFmt}, {"", "urn:oasis:names:tc:SAML:2.0:attrname-format:uri"}}
